@@ -62,6 +62,6 @@ var properties = map[string]propSpec{
 	"C16": {Rules: rl{ruleEntityActions, ruleSnapshot, ruleOwnerGuard, ruleModuleInit, ruleModuleCleanup, ruleRelaySync}, Keep: kp{"H3", "S-", "D5", "C7", "D1", "J4", "J3", "E3", "C6"}},
 	"C17": {Rules: rl{ruleFlagWrap}},
 	"C18": {Rules: rl{ruleLatencyStart, ruleLatencyReport, ruleMapOrderFree, ruleAnswers}, Keep: kp{"H2", "I1", "I2", "I3", "I4", "B1", "B2", "B4", "B7"}, Sites: map[string][]string{"B": {"HandleSignedLatency", "HandlePingResponse"}}},
-	"C19": {Rules: rl{ruleReceiptFlow, ruleAnswers}, Keep: kp{"I5", "B1", "B2", "B4"}, Sites: map[string][]string{"B": {"HandleReceipt"}}},
+	"C19": {Rules: rl{ruleReceiptFlow, ruleAnswers, ruleRelaySync}, Keep: kp{"I5", "B1", "B2", "B4", "C6"}, Sites: map[string][]string{"B": {"HandleReceipt"}}},
 	"C20": {Rules: rl{ruleModuleInit, ruleClampSymmetry, ruleGuardedBy, ruleDeferUnlock, ruleNoLockCopy, ruleGridAxes, ruleAxes, ruleIndexContracts}, Keep: kp{"J3", "J4", "G3", "F1", "F6b", "F6c", "Q"}, Sites: map[string][]string{"F1": {"RegularGrid", "State.SpatialPartition"}, "F6b": {"modules/dagaz"}}},
 }
